@@ -786,3 +786,156 @@ theorem turnV1_input_calls (cfg : Cfg) (h : HistV1) (t : Turn) (hi : WF cfg .inp
   | escaped => simp [railCalls_stopStepsV1]
 
 end NemoVerif.Pipeline
+
+namespace NemoVerif.Pipeline
+
+/-! ## Colang 1.0 without any well-formedness assumption: a trace without exception events is the closed form -/
+
+theorem railsV1_nf_of_no_exc (cfg : Cfg) (rf : Bool) (k : Kind) (v : Nat → Text → Verdict) :
+    ∀ (rails : List Nat) (t : Text) (s : Bool),
+    cfg.exc = true → excs (railsV1 cfg rf k v rails t s).1 = [] →
+    railsV1 cfg rf k v rails t s =
+      (railSteps k (gate v rails t) ++ stopStepsV1 cfg rf k (gateStop v rails t),
+       stopResV1 cfg rf (gateText v rails t) (gateStop v rails t),
+       stopSkipV1 cfg rf s (gateStop v rails t))
+  | [], t, s, _, _ => by simp [railsV1, gate, gateStop, gateText, railSteps, stopStepsV1, stopResV1, stopSkipV1]
+  | r :: rs, t, s, he, hx => by
+    cases hv : v r t with
+    | accept =>
+      have hx' : excs (railsV1 cfg rf k v rs t s).1 = [] := by simpa [railsV1, hv, excs] using hx
+      simp [railsV1, hv, gate, gateStop, gateText, Verdict.continues, Verdict.apply, railsV1_nf_of_no_exc cfg rf k v rs t s he hx', railSteps]
+    | rewrite t' =>
+      have hx' : excs (railsV1 cfg rf k v rs t' s).1 = [] := by simpa [railsV1, hv, excs] using hx
+      simp [railsV1, hv, gate, gateStop, gateText, Verdict.continues, Verdict.apply, railsV1_nf_of_no_exc cfg rf k v rs t' s he hx', railSteps]
+    | fault => simp [railsV1, hv, gate, gateStop, gateText, Verdict.continues, railSteps, stopStepsV1, stopResV1, stopSkipV1]
+    | escape => simp [railsV1, hv, gate, gateStop, gateText, Verdict.continues, railSteps, stopStepsV1, stopResV1, stopSkipV1]
+    | reject =>
+      exfalso
+      by_cases hs : cfg.stops k r = true
+      · simp [railsV1, hv, he, hs, excs] at hx
+      · have hs' : cfg.stops k r = false := by simpa using hs
+        simp [railsV1, hv, he, hs', excs] at hx
+
+/-- Without exception mode the rail flows always stop (`WF` holds vacuously). -/
+theorem WF_of_not_exc (cfg : Cfg) (k : Kind) (he : cfg.exc = false) : WF cfg k := by
+  intro h; rw [he] at h; cases h
+
+end NemoVerif.Pipeline
+
+namespace NemoVerif.Pipeline
+
+theorem processBotV1_nf_of_no_exc (cfg : Cfg) (t : Turn) (he : cfg.exc = true) (text : Text)
+    (hx : excs (processBotV1 cfg t false text).1 = []) :
+    processBotV1 cfg t false text =
+      (railSteps .output (gate t.vout cfg.outRails text)
+         ++ (outTailV1 cfg t.retrFault (gateText t.vout cfg.outRails text) (gateStop t.vout cfg.outRails text)).1,
+       (outTailV1 cfg t.retrFault (gateText t.vout cfg.outRails text) (gateStop t.vout cfg.outRails text)).2,
+       false) := by
+  unfold processBotV1 at hx ⊢
+  cases hr : cfg.outRails with
+  | nil => simp [gate, gateStop, gateText, railSteps, outTailV1]
+  | cons r rs =>
+    rw [hr] at hx
+    simp only [List.isEmpty_cons, Bool.false_eq_true, if_false] at hx ⊢
+    have hx' : excs (railsV1 cfg t.retrFault .output t.vout (r :: rs) text false).1 = [] := by
+      rcases hrr : railsV1 cfg t.retrFault .output t.vout (r :: rs) text false with ⟨tr, res, s⟩
+      rw [hrr] at hx
+      cases res <;> simp at hx <;> simp [hx]
+    have hnf := railsV1_nf_of_no_exc cfg t.retrFault .output t.vout (r :: rs) text false he hx'
+    rw [hnf]
+    cases hs : gateStop t.vout (r :: rs) text with
+    | none => simp [stopStepsV1, stopResV1, stopSkipV1, outTailV1]
+    | some w =>
+      cases w with
+      | accept => simp [stopStepsV1, stopResV1, stopSkipV1, outTailV1]
+      | rewrite x => simp [stopStepsV1, stopResV1, stopSkipV1, outTailV1]
+      | fault => simp [stopStepsV1, stopResV1, stopSkipV1, outTailV1]
+      | escape => simp [stopStepsV1, stopResV1, stopSkipV1, outTailV1]
+      | reject => simp [stopStepsV1, stopResV1, stopSkipV1, outTailV1, he]
+
+/-- A Colang 1.0 turn in exception mode whose trace contains no exception event is the closed form,
+    whatever the rail flows look like. -/
+theorem turnV1_eq_spec_of_no_exc (cfg : Cfg) (h : HistV1) (t : Turn) (he : cfg.exc = true) (hs : h.skip = false)
+    (hx : excs (turnV1 cfg h t).1 = []) : turnV1 cfg h t = turnSpecV1 cfg h t := by
+  unfold turnV1 at hx ⊢
+  rw [inputPartV1_eq] at hx ⊢
+  have hin : excs (railsV1 cfg t.retrFault .input t.vin cfg.inRails t.user h.skip).1 = [] := by
+    rcases hrr : railsV1 cfg t.retrFault .input t.vin cfg.inRails t.user h.skip with ⟨trIn, res, s1⟩
+    rw [hrr] at hx
+    cases res with
+    | pass um =>
+      simp only at hx
+      rcases hg : genV1 cfg t s1 um with ⟨tr, e, s2⟩
+      rw [hg] at hx
+      simp only [excs_append, List.append_eq_nil_iff] at hx
+      exact hx.1
+    | blocked => simpa using hx
+    | faulted => simpa using hx
+    | escaped => simpa using hx
+  have hnf := railsV1_nf_of_no_exc cfg t.retrFault .input t.vin cfg.inRails t.user h.skip he hin
+  rw [hnf] at hx ⊢
+  unfold turnSpecV1 inputTraceV1
+  rw [hs, stopSkipV1_false] at hx ⊢
+  simp only at hx ⊢
+  cases hres : stopResV1 cfg t.retrFault (gateText t.vin cfg.inRails t.user) (gateStop t.vin cfg.inRails t.user) with
+  | pass um =>
+    rw [hres] at hx
+    simp only at hx ⊢
+    rw [genV1_nf] at hx ⊢
+    unfold afterInputV1
+    by_cases hf : genFaultV1 cfg t = true
+    · simp [hf]
+    · have hf' : genFaultV1 cfg t = false := by simpa using hf
+      simp only [hf', Bool.false_eq_true, if_false] at hx ⊢
+      have hpb : excs (processBotV1 cfg t false t.bot).1 = [] := by
+        simp only [excs_append, List.append_eq_nil_iff] at hx
+        exact hx.2.2
+      rw [processBotV1_nf_of_no_exc cfg t he t.bot hpb]
+  | blocked => simp
+  | faulted => simp
+  | escaped => simp
+
+end NemoVerif.Pipeline
+
+namespace NemoVerif.Pipeline
+
+theorem utter_mem_turnSpecV1 (cfg : Cfg) (h : HistV1) (t : Turn) (x : Text) (hx : Step.utter x ∈ (turnSpecV1 cfg h t).1) :
+    x = refusal ∨ x = internalError ∨
+      (gateStop t.vout cfg.outRails t.bot = none ∧ x = gateText t.vout cfg.outRails t.bot) := by
+  rw [turnSpecV1_trace] at hx
+  rcases List.mem_append.mp hx with h1 | h1
+  · rcases utter_mem_inputTraceV1 cfg t x h1 with h2 | h2
+    · exact Or.inl h2
+    · exact Or.inr (Or.inl h2)
+  · cases hg : gateStop t.vin cfg.inRails t.user with
+    | some w => rw [hg] at h1; simp at h1
+    | none =>
+      rw [hg] at h1
+      rcases utter_mem_afterInputV1 cfg t _ x h1 with h2 | h2 | ⟨_, hso, hxe⟩
+      · exact Or.inl h2
+      · exact Or.inr (Or.inl h2)
+      · exact Or.inr (Or.inr ⟨hso, hxe⟩)
+
+theorem turnV1_reply (cfg : Cfg) (h : HistV1) (t : Turn) :
+    ∃ raised, (turnV1 cfg h t).2.1 = replyV1 (turnV1 cfg h t).1 raised := by
+  unfold turnV1
+  rcases railsIn : (if cfg.inRails.isEmpty then (([] : List Step), Res.pass t.user, h.skip)
+      else railsV1 cfg t.retrFault .input t.vin cfg.inRails t.user h.skip) with ⟨trIn, res, s1⟩
+  cases res with
+  | pass um =>
+    simp only
+    rcases genV1 cfg t s1 um with ⟨tr, e, s2⟩
+    exact ⟨_, rfl⟩
+  | blocked => exact ⟨false, rfl⟩
+  | faulted => exact ⟨false, rfl⟩
+  | escaped => exact ⟨true, rfl⟩
+
+theorem replyV1_texts_nil_of_exc (tr : List Step) (raised : Bool) (hx : excs tr ≠ []) : (replyV1 tr raised).texts = [] := by
+  unfold replyV1
+  split
+  · rfl
+  · cases hl : (excs tr).getLast? with
+    | none => simp [List.getLast?_eq_none_iff] at hl; exact absurd hl hx
+    | some k => rfl
+
+end NemoVerif.Pipeline
